@@ -218,7 +218,7 @@ func codecPair(c *core.Ctx, rule, name string, enc, dec *ssa.Function, owner str
 			if k == "" {
 				continue
 			}
-			arg := call.Call.Args[len(call.Call.Args)-1]
+			arg := rawArgs(call)[len(call.Call.Args)-1]
 			if k == "Byte" {
 				if tag, isC := constInt(arg); isC {
 					// a literal byte: a tag (or a fixed marker)
@@ -319,7 +319,7 @@ func c09(c *core.Ctx) {
 		covered := map[string]bool{}
 		ssax.Instrs(enc, false, func(_ *ssa.Function, in ssa.Instruction) {
 			if call, ok := in.(*ssa.Call); ok && writeKind(ssax.ResolveCallee(&call.Call)) != "" {
-				arg := call.Call.Args[len(call.Call.Args)-1]
+				arg := rawArgs(call)[len(call.Call.Args)-1]
 				for x := range ssax.BackwardOpt(arg, func(cl *ssa.Call) bool {
 					return cl.Call.StaticCallee() != nil && cl.Call.StaticCallee().Name() == "DecodeRemainLength"
 				}) {
@@ -648,7 +648,7 @@ func c09(c *core.Ctx) {
 						if !ok || !isCallTo(call, "github.com/gomodule/redigo/redis.Int") {
 							return false
 						}
-						ld, ok := call.Call.Args[0].(*ssa.UnOp)
+						ld, ok := rawArgs(call)[0].(*ssa.UnOp)
 						if !ok {
 							return false
 						}
@@ -736,7 +736,7 @@ func persistBeforeApply(c *core.Ctx, rule, pkg, fnName string) {
 				}
 			case *ssa.Call:
 				if b, ok := x.Call.Value.(*ssa.Builtin); ok && b.Name() == "delete" {
-					if ssax.AnyIn(ssax.Backward(x.Call.Args[0]), func(v ssa.Value) bool { return strings.HasPrefix(ssax.FieldOwner(v), mf.pkg+".") }) {
+					if ssax.AnyIn(ssax.Backward(rawArgs(x)[0]), func(v ssa.Value) bool { return strings.HasPrefix(ssax.FieldOwner(v), mf.pkg+".") }) {
 						muts = append(muts, in)
 					}
 				}
